@@ -468,6 +468,31 @@ def own_occurrence_rule(ctx, prog, rule):
         raise AnalysisBroken('no search loop in %s / %s' % (FIND_ENTRY, FIND_FOREIGN))
 
 
+def foreign_needle_rule(ctx, prog, rule):
+    """enable, disable and status recognise "another Snoopy instance" by the same text: the needle handed to the
+    active-line search is one and the same literal at every call (siblings of one interface must agree: an instance
+    that status and disable count but enable does not see is installed next to)"""
+    chk = ctx.chk
+    calls = [(f, c) for f in prog.functions for c in f.calls(FIND_FOREIGN)]
+    lits = []
+    for f, c in calls:
+        a = strip(arg(c, 1))
+        if a is not None and a.k == 'StringLiteral':
+            lits.append((a.get('s'), f, c))
+    if len(lits) < 3:
+        raise AnalysisBroken('fewer than three active-line searches with a literal needle (found %d)' % len(lits))
+    vals = sorted({l[0] for l in lits})
+    major = max(vals, key=lambda v: sum(1 for l in lits if l[0] == v))
+    odd = [l for l in lits if l[0] != major]
+    chk.ob(rule, 'foreign-instance-needle-agrees', not odd, (odd[0][2] if odd else lits[0][2]).where(),
+           (odd[0][1] if odd else lits[0][1]).name,
+           '%s looks for "%s" where the other %d searches look for "%s": a line that the one command takes for another '
+           'Snoopy instance is invisible to the other (e.g. a bare "libsnoopy.so" or "/opt/x/old-libsnoopy.so" entry is '
+           'not refused by enable but makes status and disable stop)' % (
+               odd[0][1].name if odd else '', odd[0][0] if odd else '', len(lits) - len(odd), major),
+           how='%d searches, all for "%s"' % (len(lits), major))
+
+
 def run(ctx):
     chk = ctx.chk
     chk.rule('Q1', 'etcLdSoPreload_writeFile is the only function that opens the preload path for writing and its callers '
@@ -539,6 +564,7 @@ def run(ctx):
         chk.ob('Q2', '%s-tested-before-write' % label, dom and bool(absent_edges), wc.where(), F.name,
                'a path reaches the write without the %s test' % label)
     follower_test(ctx, prog, 'Q6')
+    foreign_needle_rule(ctx, prog, 'Q2')
     line_start_rule(ctx, prog, 'Q7')
     own_occurrence_rule(ctx, prog, 'Q7')
     cli_memory_rules(ctx, prog, cg, ENABLE, 'Q8')
